@@ -62,7 +62,7 @@ claim("C03",
       "(membership, iteration, length); exhaustive three-way missing-data policy with an all-zero nine-field fallback; "
       "immutability (slots, raising __setattr__, slot writes only at construction) and scale-carrying arithmetic; the "
       "constructor's carry/wrap and _convert_to_scale as exact inverses; the EOP day chosen by the instant; IERS day "
-      "lookup and leap-second table.",
+      "lookup and leap-second table; no Date is built at import time (the first Date instantiates the EOP database).",
       "Not decided: microsecond bounds of round trips, UT1/TDB accuracy, behaviour inside leap-second windows. Several "
       "R03.5/R03.6/R03.8 instances are frozen-shape rules on 1-3 line accessors (any edit of those lines is reported).",
       "graph/table agreement + ast pattern rules + data-dependence over reaching definitions", "§3 C03")
@@ -174,7 +174,9 @@ claim("C15",
       "setters compute before they commit and restore the form on failure; reading and writing by name use the same "
       "alias map and decision order against the current form, with alias closure; pickling keys agree, array "
       "finalisation copies the metadata dict, Orbit<->StateVector conversion keeps everything but the propagator, "
-      "Cov.copy is complete and snapshots its state.",
+      "Cov.copy is complete and snapshots its state; the covariance pickles everything its constructor stores and `.base` "
+      "of an unpickled object falls back on a view; the functions on the path of a frame change store only into objects they "
+      "created.",
       "Not decided: behaviour for sequences of operations as executed (only the per-operation invariants that make any "
       "sequence safe). Known finding D31: Man objects inside the maneuvers list are shared by copy().",
       "ownership/freshness abstract interpretation + ast pattern rules (compute-then-commit, sibling agreement)", "§3 C15")
